@@ -3,6 +3,7 @@ CONSTANT Ns = {2, 3, 4}
 CONSTANT GridNum <- QuickGrid
 CONSTANT GridDen = 2
 CONSTANT NObjs = 60
+CONSTANT Dims = {2, 3, 4}
 CONSTANT Emit = FALSE
 INVARIANT IneqFeasible
 INVARIANT IneqIdempotent
